@@ -602,7 +602,7 @@ var c07Topics = []string{"a", "a/b", "a/b/c", "a/c", "b"}
 
 func genC07Race(r *Rand, tier, profile string) *Case {
 	c := &Case{Profile: "retained-race", Knobs: map[string]int64{"nodes": 1}}
-	c.Knobs["preempt_permille"] = int64(r.PickInt([]int{5, 20, 60, 150}))
+	c.Knobs["sched"] = 1
 	topic := r.Pick([]string{"a", "a/b", "a/b/c"})
 	var ts []tstep
 	t := int64(1)
